@@ -1377,7 +1377,7 @@ returnVal.option() ?: return null
                     &mut special_methods,
                     method,
                     Some(self_param),
-                    None,
+                    Some(type_name),
                     use_finalizers_not_cleaners,
                 )
             })
@@ -1762,7 +1762,7 @@ returnVal.option() ?: return null
                     &mut special_methods,
                     method,
                     Some(self_param),
-                    None,
+                    Some(type_name),
                     use_finalizers_not_cleaners,
                 )
             })
@@ -1778,7 +1778,7 @@ returnVal.option() ?: return null
                     &mut special_methods,
                     method,
                     None,
-                    None,
+                    Some(type_name),
                     use_finalizers_not_cleaners,
                 )
             })
